@@ -11,7 +11,8 @@ Section Stream.
   Variable compress : cstate -> list Z -> list Z * cstate.
   Variable decompress : dstate -> list Z -> option (list Z * dstate).
   Variable sync : cstate -> dstate -> Prop.
-  Hypothesis round_trip : forall cs ds data, sync cs ds ->
+  (* only non-empty input: deflate with nothing to compress returns Z_BUF_ERROR *)
+  Hypothesis round_trip : forall cs ds data, data <> [] -> sync cs ds ->
     exists ds', decompress ds (fst (compress cs data)) = Some (data, ds') /\ sync (snd (compress cs data)) ds'.
 
   Fixpoint comp_all (cs : cstate) (ps : list (list Z)) : list (list Z) :=
@@ -30,19 +31,22 @@ Section Stream.
       end
     end.
 
-  Theorem stream_history : forall ps cs ds, sync cs ds -> decomp_all ds (comp_all cs ps) = Some ps.
+  Theorem stream_history : forall ps cs ds, Forall (fun p => p <> []) ps -> sync cs ds ->
+    decomp_all ds (comp_all cs ps) = Some ps.
   Proof.
-    induction ps as [|p ps IH]; intros cs ds S; [reflexivity|].
-    cbn [comp_all decomp_all]. destruct (round_trip cs ds p S) as (ds' & D & S').
-    rewrite D, (IH _ _ S'). reflexivity.
+    induction ps as [|p ps IH]; intros cs ds NE S; [reflexivity|].
+    apply Forall_cons_iff in NE. destruct NE as [NP NT].
+    cbn [comp_all decomp_all]. destruct (round_trip cs ds p NP S) as (ds' & D & S').
+    rewrite D, (IH _ _ NT S'). reflexivity.
   Qed.
 End Stream.
 
 (* the hypothesis is satisfiable (the "stored" compressor), so the theorem is not vacuous *)
 Example stream_history_nonvacuous :
-  decomp_all unit (fun ds z => Some (z, ds)) tt (comp_all unit (fun cs p => (p, cs)) tt [[1%Z; 2%Z]; []; [3%Z]])
-  = Some [[1%Z; 2%Z]; []; [3%Z]].
+  decomp_all unit (fun ds z => Some (z, ds)) tt (comp_all unit (fun cs p => (p, cs)) tt [[1%Z; 2%Z]; [7%Z]; [3%Z]])
+  = Some [[1%Z; 2%Z]; [7%Z]; [3%Z]].
 Proof.
-  apply (stream_history unit unit (fun cs p => (p, cs)) (fun ds z => Some (z, ds)) (fun _ _ => True)); [|exact I].
-  intros cs ds data _. exists ds. split; [reflexivity|exact I].
+  apply (stream_history unit unit (fun cs p => (p, cs)) (fun ds z => Some (z, ds)) (fun _ _ => True)); [| |exact I].
+  - intros cs ds data _ _. exists ds. split; [reflexivity|exact I].
+  - repeat constructor; discriminate.
 Qed.
